@@ -100,3 +100,133 @@ func TestChannels(t *testing.T) {
 		t.Fatal("too few outcomes")
 	}
 }
+
+// Unbuffered channels: a worker pool fed through a rendezvous channel, results through another one.
+func TestRendezvous(t *testing.T) {
+	outcomes := map[string]int{}
+	body := func() {
+		jobs := make(chan int)
+		res := make(chan int)
+		for w := 0; w < 2; w++ {
+			vsched.Go(func() {
+				for {
+					v, ok := vsched.Recv2(jobs)
+					if !ok {
+						return
+					}
+					vsched.Send(res, v*v)
+				}
+			})
+		}
+		vsched.Go(func() {
+			for i := 1; i <= 3; i++ {
+				vsched.Send(jobs, i)
+			}
+			vsched.Close(jobs)
+		})
+		sum, order := 0, ""
+		for i := 0; i < 3; i++ {
+			v := vsched.Recv(res)
+			sum += v
+			order += string(rune('0' + v))
+		}
+		if sum != 14 {
+			panic("lost or duplicated job")
+		}
+		outcomes[order]++
+	}
+	st := vsched.Explore(vsched.Options{Bound: 2}, body, func(x *vsched.Exec) {
+		if x.Failed() {
+			t.Fatalf("failed: %+v", x)
+		}
+	})
+	t.Logf("%d executions, orders %v", st.Executions, outcomes)
+	if len(outcomes) < 2 {
+		t.Fatal("rendezvous pool shows a single result order")
+	}
+}
+
+// A sender blocked on an unbuffered channel nobody reads is a deadlock.
+func TestRendezvousDeadlock(t *testing.T) {
+	found := 0
+	vsched.Explore(vsched.Options{Bound: 1}, func() {
+		ch := make(chan int)
+		vsched.Send(ch, 1)
+	}, func(x *vsched.Exec) {
+		if x.Deadlock {
+			found++
+		}
+	})
+	if found == 0 {
+		t.Fatal("deadlock not found")
+	}
+}
+
+// select: a consumer that takes values until a done signal, a producer that uses a non-blocking send.
+func TestSelect(t *testing.T) {
+	outcomes := map[string]int{}
+	body := func() {
+		data := make(chan int)
+		done := make(chan struct{}, 1)
+		dropped, got := 0, 0
+		var fin = make(chan int, 1)
+		vsched.Go(func() {
+			for {
+				s := vsched.NewSelect(false)
+				vsched.SelRecv(s, data)
+				vsched.SelRecv(s, done)
+				switch vsched.SelWait(s) {
+				case 0:
+					v, _ := vsched.SelRecvDone(s, (<-chan int)(data))
+					got += v
+				case 1:
+					vsched.Send(fin, got)
+					return
+				}
+			}
+		})
+		for i := 1; i <= 2; i++ {
+			s := vsched.NewSelect(true)
+			vsched.SelSend(s, data, i)
+			if vsched.SelWait(s) == -1 {
+				dropped += i
+			}
+		}
+		vsched.Send(done, struct{}{})
+		total := vsched.Recv(fin)
+		if total+dropped != 3 {
+			panic("a value was neither delivered nor dropped")
+		}
+		outcomes[string(rune('0'+total))]++
+	}
+	st := vsched.Explore(vsched.Options{Bound: 3}, body, func(x *vsched.Exec) {
+		if x.Failed() {
+			t.Fatalf("failed: %+v", x)
+		}
+	})
+	t.Logf("%d executions, delivered totals %v", st.Executions, outcomes)
+	if len(outcomes) < 2 {
+		t.Fatal("select shows a single outcome: the non-blocking send never met (or always met) a waiting receiver")
+	}
+}
+
+// Outside the explorer SelWait performs the real select.
+func TestSelectFreeRunning(t *testing.T) {
+	a := make(chan int, 1)
+	b := make(chan string)
+	a <- 7
+	s := vsched.NewSelect(false)
+	vsched.SelRecv(s, a)
+	vsched.SelRecv(s, b)
+	if i := vsched.SelWait(s); i != 0 {
+		t.Fatalf("case %d", i)
+	}
+	if v, ok := vsched.SelRecvDone(s, (<-chan int)(a)); v != 7 || !ok {
+		t.Fatalf("got %v %v", v, ok)
+	}
+	s2 := vsched.NewSelect(true)
+	vsched.SelSend(s2, b, "x")
+	if i := vsched.SelWait(s2); i != -1 {
+		t.Fatalf("non-blocking send without a receiver took case %d", i)
+	}
+}
